@@ -76,6 +76,38 @@ impl<'ast, 'k> Visit<'ast> for AttrPass<'k> {
     }
 }
 
+// ---------------------------------------------------------------- N10 thiserror `#[from]`
+
+/// `enum E { V(#[from] T), .. }` (thiserror) means `impl From<T> for E { fn from(t) -> E::V(t) }`.
+/// The derive is dropped by N2, so the conversion it generates is re-created here, mechanically.
+fn from_impls(f: &syn::File, src: &str) -> (String, usize) {
+    let mut out = String::new();
+    let mut n = 0;
+    for it in &f.items {
+        if let syn::Item::Enum(e) = it {
+            if !e.generics.params.is_empty() {
+                continue;
+            }
+            for v in &e.variants {
+                if let syn::Fields::Unnamed(u) = &v.fields {
+                    if u.unnamed.len() == 1 {
+                        let fld = &u.unnamed[0];
+                        if fld.attrs.iter().any(|a| a.path().is_ident("from")) {
+                            let ty = &src[range(fld.ty.span())];
+                            let (en, vn) = (&e.ident, &v.ident);
+                            out.push_str(&format!(
+                                "\nimpl vstd::std_specs::convert::FromSpecImpl<{ty}> for {en} {{\n    open spec fn obeys_from_spec() -> bool {{ true }}\n    open spec fn from_spec(t: {ty}) -> Self {{ {en}::{vn}(t) }}\n}}\nimpl From<{ty}> for {en} {{ fn from(t: {ty}) -> (r: Self) {{ {en}::{vn}(t) }} }}\n"
+                            ));
+                            n += 1;
+                        }
+                    }
+                }
+            }
+        }
+    }
+    (out, n)
+}
+
 // ---------------------------------------------------------------- N2b tracing
 
 fn is_tracing_macro(m: &syn::Macro) -> bool {
@@ -275,6 +307,171 @@ impl<'ast, 's> Visit<'ast> for OrPatPass<'s> {
     }
 }
 
+// ---------------------------------------------------------------- N11 inner immutable statics
+
+/// `static NAME: T = <expr>;` declared *inside* a function body (Verus: "internal item statements" unsupported)
+/// is hoisted in front of the item as `const NAME: T = <expr>;` — an immutable static read by value is a constant.
+struct InnerStaticPass<'s> {
+    src: &'s str,
+    edits: Vec<Edit>,
+    hoisted: String,
+}
+impl<'ast, 's> Visit<'ast> for InnerStaticPass<'s> {
+    fn visit_stmt(&mut self, st: &'ast syn::Stmt) {
+        if let syn::Stmt::Item(syn::Item::Static(it)) = st {
+            if matches!(it.mutability, syn::StaticMutability::None) {
+                let r = range(st.span());
+                let ty = &self.src[range(it.ty.span())];
+                let ex = &self.src[range(it.expr.span())];
+                self.hoisted.push_str(&format!("pub const {}: {ty} = {ex};\n", it.ident));
+                self.edits.push(Edit { start: r.start, end: r.end, text: String::new(), rule: "N11" });
+                return;
+            }
+        }
+        visit::visit_stmt(self, st);
+    }
+}
+
+// ---------------------------------------------------------------- N12 break-with-value
+
+/// `let PAT = loop { .. break V; .. };`  ->  `let tmp; loop { .. { tmp = V; break; } .. }; let PAT = tmp;`
+/// (Verus: "complex break expressions" unsupported).  Deferred initialisation; same control flow.
+struct BreakFinder {
+    breaks: Vec<(std::ops::Range<usize>, std::ops::Range<usize>)>, // (whole break expr, value expr)
+}
+impl<'ast> Visit<'ast> for BreakFinder {
+    fn visit_expr_break(&mut self, b: &'ast syn::ExprBreak) {
+        if let (None, Some(v)) = (&b.label, &b.expr) {
+            self.breaks.push((range(b.span()), range(v.span())));
+        }
+    }
+    fn visit_expr_loop(&mut self, _: &'ast syn::ExprLoop) {}
+    fn visit_expr_while(&mut self, _: &'ast syn::ExprWhile) {}
+    fn visit_expr_for_loop(&mut self, _: &'ast syn::ExprForLoop) {}
+    fn visit_expr_closure(&mut self, _: &'ast syn::ExprClosure) {}
+}
+struct BreakValuePass<'s> {
+    src: &'s str,
+    edits: Vec<Edit>,
+    n: usize,
+}
+impl<'ast, 's> Visit<'ast> for BreakValuePass<'s> {
+    fn visit_local(&mut self, l: &'ast syn::Local) {
+        if let Some(init) = &l.init {
+            if let syn::Expr::Loop(lp) = &*init.expr {
+                if lp.label.is_none() && init.diverge.is_none() {
+                    let mut bf = BreakFinder { breaks: vec![] };
+                    visit::visit_block(&mut bf, &lp.body);
+                    if !bf.breaks.is_empty() {
+                        let tmp = format!("verif_loop_value_{}", self.n);
+                        self.n += 1;
+                        let pat = &self.src[range(l.pat.span())];
+                        let ls = range(l.span());
+                        let loop_s = range(lp.span()).start;
+                        // `let PAT = ` -> `let tmp; `
+                        self.edits.push(Edit { start: ls.start, end: loop_s, text: format!("let {tmp};\n        "), rule: "N12" });
+                        for (whole, val) in &bf.breaks {
+                            let v = &self.src[val.clone()];
+                            self.edits.push(Edit { start: whole.start, end: whole.end, text: format!("{{ {tmp} = {v}; break; }}"), rule: "N12" });
+                        }
+                        // after the statement's `;`
+                        self.edits.push(Edit { start: ls.end, end: ls.end, text: format!("\n        let {pat} = {tmp};"), rule: "N12" });
+                        return;
+                    }
+                }
+            }
+        }
+        visit::visit_local(self, l);
+    }
+}
+
+// ---------------------------------------------------------------- N13 visibility
+
+/// Every extracted item, field and inherent method is made `pub`.  Visibility has no run-time meaning; in the
+/// single-file crate it only restricts which spec functions a contract may mention.
+struct VisPass {
+    edits: Vec<Edit>,
+}
+impl VisPass {
+    fn fix(&mut self, vis: &syn::Visibility, insert_at: usize) {
+        match vis {
+            syn::Visibility::Public(_) => {}
+            syn::Visibility::Restricted(r) => {
+                let rg = range(r.span());
+                self.edits.push(Edit { start: rg.start, end: rg.end, text: "pub".into(), rule: "N13" });
+            }
+            syn::Visibility::Inherited => {
+                self.edits.push(Edit { start: insert_at, end: insert_at, text: "pub ".into(), rule: "N13" });
+            }
+        }
+    }
+}
+impl<'ast> Visit<'ast> for VisPass {
+    fn visit_item_struct(&mut self, i: &'ast syn::ItemStruct) {
+        self.fix(&i.vis, range(i.struct_token.span()).start);
+        for f in i.fields.iter() {
+            let at = match &f.ident { Some(id) => range(id.span()).start, None => range(f.ty.span()).start };
+            self.fix(&f.vis, at);
+        }
+    }
+    fn visit_item_enum(&mut self, i: &'ast syn::ItemEnum) {
+        self.fix(&i.vis, range(i.enum_token.span()).start);
+    }
+    fn visit_item_type(&mut self, i: &'ast syn::ItemType) {
+        self.fix(&i.vis, range(i.type_token.span()).start);
+    }
+    fn visit_item_const(&mut self, i: &'ast syn::ItemConst) {
+        self.fix(&i.vis, range(i.const_token.span()).start);
+    }
+    fn visit_item_static(&mut self, i: &'ast syn::ItemStatic) {
+        self.fix(&i.vis, range(i.static_token.span()).start);
+    }
+    fn visit_item_fn(&mut self, i: &'ast syn::ItemFn) {
+        self.fix(&i.vis, range(i.sig.span()).start);
+    }
+    fn visit_item_impl(&mut self, i: &'ast syn::ItemImpl) {
+        if i.trait_.is_some() {
+            return;
+        }
+        for it in &i.items {
+            if let syn::ImplItem::Fn(f) = it {
+                self.fix(&f.vis, range(f.sig.span()).start);
+            }
+        }
+    }
+}
+
+// ---------------------------------------------------------------- N14 deliberate aborts
+
+/// Opt-in per item (`"abort_on_panic": true`): an explicit `panic!(..)` is a deliberate abort, replaced by the
+/// prelude's `verif_abort() -> !` (ensures false).  Exact for partial correctness; what is dropped is the
+/// obligation that the abort is unreachable.  `assert!`, `unreachable!`, `unwrap`, `expect` stay obligations.
+struct AbortPass {
+    edits: Vec<Edit>,
+}
+impl<'ast> Visit<'ast> for AbortPass {
+    fn visit_stmt(&mut self, s: &'ast syn::Stmt) {
+        if let syn::Stmt::Macro(m) = s {
+            if m.mac.path.is_ident("panic") {
+                let r = range(m.mac.span());
+                self.edits.push(Edit { start: r.start, end: r.end, text: "verif_abort()".into(), rule: "N14" });
+                return;
+            }
+        }
+        visit::visit_stmt(self, s);
+    }
+    fn visit_expr(&mut self, e: &'ast syn::Expr) {
+        if let syn::Expr::Macro(m) = e {
+            if m.mac.path.is_ident("panic") {
+                let r = range(e.span());
+                self.edits.push(Edit { start: r.start, end: r.end, text: "verif_abort()".into(), rule: "N14" });
+                return;
+            }
+        }
+        visit::visit_expr(self, e);
+    }
+}
+
 // ---------------------------------------------------------------- N8 format!
 
 struct FormatPass<'s> {
@@ -333,13 +530,16 @@ pub fn normalize(
     global_subst: &[(String, String, String)],
     keep_derives: &[String],
     fired: &mut BTreeMap<String, usize>,
-) -> Result<String, Lost> {
+) -> Result<(String, String, String), Lost> {
     let skip = |r: &str| spec.skip_rules.iter().any(|s| s == r);
     let mut text = text0.to_string();
+    let mut suffix = String::new();
+    let mut prefix = String::new();
 
     // N2a
     {
         let f = parse(&text, "extraction")?;
+        let (froms, nfrom) = if skip("N10") { (String::new(), 0) } else { from_impls(&f, &text) };
         let mut p = AttrPass { src: &text, edits: vec![], keep_derives, err: None };
         p.visit_file(&f);
         if let Some(e) = p.err {
@@ -347,6 +547,8 @@ pub fn normalize(
         }
         bump(fired, "N2.attrs", p.edits.len());
         text = apply_edits(&text, p.edits);
+        bump(fired, "N10.from-impls", nfrom);
+        suffix = froms;
     }
     // N2b
     if !skip("N2") {
@@ -390,6 +592,43 @@ pub fn normalize(
             text = apply_edits(&text, p.edits);
         }
     }
+    // N11
+    if !skip("N11") {
+        let f = parse(&text, "N3")?;
+        let mut p = InnerStaticPass { src: &text, edits: vec![], hoisted: String::new() };
+        p.visit_file(&f);
+        if !p.edits.is_empty() {
+            bump(fired, "N11", p.edits.len());
+            prefix = p.hoisted.clone();
+            text = apply_edits(&text, p.edits);
+        }
+    }
+    // N12
+    if !skip("N12") {
+        let f = parse(&text, "N11")?;
+        let mut p = BreakValuePass { src: &text, edits: vec![], n: 0 };
+        p.visit_file(&f);
+        if !p.edits.is_empty() {
+            bump(fired, "N12", 1);
+            text = apply_edits_all(&text, p.edits);
+        }
+    }
+    // N13
+    if !skip("N13") {
+        let f = parse(&text, "N12")?;
+        let mut p = VisPass { edits: vec![] };
+        p.visit_file(&f);
+        bump(fired, "N13", p.edits.len());
+        text = apply_edits_all(&text, p.edits);
+    }
+    // N14
+    if spec.abort_on_panic {
+        let f = parse(&text, "N13")?;
+        let mut p = AbortPass { edits: vec![] };
+        p.visit_file(&f);
+        bump(fired, "N14", p.edits.len());
+        text = apply_edits(&text, p.edits);
+    }
     // N8
     if !skip("N8") {
         for _ in 0..8 {
@@ -410,17 +649,19 @@ pub fn normalize(
             return Err(Lost(format!("anchor lost: substitution text `{from}` ({rule}) not found")));
         }
         text = text.replace(from.as_str(), to);
+        suffix = suffix.replace(from.as_str(), to);
         bump(fired, &format!("{rule}.subst"), n);
     }
     for (from, to, rule) in global_subst {
         let n = text.matches(from.as_str()).count();
         if n > 0 {
             text = text.replace(from.as_str(), to);
+            suffix = suffix.replace(from.as_str(), to);
             bump(fired, &format!("{rule}.subst"), n);
         }
     }
     parse(&text, "substitutions")?;
-    Ok(text)
+    Ok((text, prefix, suffix))
 }
 
 // ---------------------------------------------------------------- splice
@@ -591,6 +832,10 @@ pub fn splice(
         obligations.push(json!({"id": format!("{id}.body"), "from": base_line, "to": base_line + lines.len() - 1, "kind": "body"}));
     }
     Ok(Spliced { text: out, obligations, fn_name: Some(fn_name), is_fn: true })
+}
+
+fn apply_edits_all(src: &str, edits: Vec<Edit>) -> String {
+    apply_zero_width_safe(src, edits)
 }
 
 /// like apply_edits, but zero-width insertions never shadow each other
